@@ -24,7 +24,7 @@ ASSUMPTIONS = [
     "compared (a tape has none)",
     "zero-length files are not generated (known finding F-C06-empty-file-ends-listing)",
 ]
-HEALTH = {"files_filter": 0.3, "chain": 0.25, "lowercase_name": 0.3, "to_bin": 0.08}
+HEALTH = {"files_filter": 0.12, "chain": 0.1, "lowercase_name": 0.12, "to_bin": 0.032}
 EXHAUSTIVE = {}
 
 _NAMES = ["HELLO", "hello2", "World", "a", "Zz9", "LONGNAME", "mixedCas", "x1", "PROG", "data", "Q", "abc"]
